@@ -74,7 +74,7 @@ def prog_space(tier):
     return progs
 
 
-VARIANTS = ["sub", "glob", "ret", "sub+glob+ret", "clear", "sub+glob+ret+clear", "priv", "sub+glob+priv"]
+VARIANTS = ["sub", "glob", "ret", "sub+glob+ret", "clear", "sub+glob+ret+clear", "priv", "sub+glob+priv", "dyn", "dyn+ret"]
 
 
 def build_prog(prog, variant):
@@ -95,6 +95,10 @@ def build_prog(prog, variant):
     ret = f" -> {MT}" if "ret" in v else ""
     text = "builtin.module {\n" + glob + "func.func public @f(" + ", ".join(args) + ")" + ret + " {\n  %zero = arith.constant 0 : index\n  %one = arith.constant 1 : index\n"
     text += "\n".join(pre + lines) + ("\n  func.return %c : " + MT if "ret" in v else "\n  func.return") + "\n}\n}\n"
+    if "dyn" in v:
+        # 2-D buffers whose SECOND dimension is only known at run time (4 x ?): stand-in buffers must get the run-time shape of what they stand for
+        text = text.replace(f"  %c = memref.alloc() : {MT}", f"  %dd = memref.dim %a, %one : {MT}\n  %c = memref.alloc(%dd) : {MT}")
+        text = text.replace(MT, "memref<4x?xi32>").replace("affine_map<(d0) -> (d0)>", "affine_map<(d0, d1) -> (d0, d1)>").replace('iterator_types = ["parallel"]', 'iterator_types = ["parallel", "parallel"]')
     if "priv" in v:
         # a private function with a body: its arguments carry no memory space at all (only public functions are tagged L3)
         text = text.replace("func.func public @f", "func.func private @f")
@@ -111,6 +115,7 @@ class BufMachine:
         self.nalloc = 0
         self.counts = {}
         self.operand_spaces = []
+        self.problems = []
 
     def term(self, v):
         return self.mem.get(v.buf, ("init", v.buf[0]))
@@ -118,10 +123,14 @@ class BufMachine:
     def h_alloc(self, it, op):
         self.nalloc += 1
         ty = op.results[0].type
-        return [View(("alloc", self.nalloc), 4, 0, list(ty.get_shape()), [1], 0x100 * self.nalloc)]
+        dyn = [it.get(o) for o in op.operands]
+        shape = [dyn.pop(0) if n < 0 else n for n in ty.get_shape()]
+        return [View(("alloc", self.nalloc), 4, 0, shape, [1] * len(shape), 0x100 * self.nalloc)]
 
     def h_copy(self, it, op):
         s, d = it.get(op.operands[0]), it.get(op.operands[1])
+        if list(s.sizes) != list(d.sizes):
+            self.problems.append(f"memref.copy between buffers of run-time shapes {list(s.sizes)} and {list(d.sizes)}")
         self.mem[d.buf] = self.term(s)
         return []
 
@@ -155,6 +164,9 @@ def run_prog(mod, trips, variant=None):
     it = Interp(handlers=h, budget=20000)
     a = View(("a", 0), 4, 0, [16], [1], 0x10) if "sub" in v else View(("a", 0), 4, 0, [8], [1], 0x10)
     b = View(("b", 0), 4, 0, [8], [1], 0x20)
+    if "dyn" in v:
+        a = View(("a", 0), 4, 0, [4, 6], [6, 1], 0x10)
+        b = View(("b", 0), 4, 0, [4, 6], [6, 1], 0x20)
     term, vals = it.run_func(find_func(mod, "f"), [a] + ([] if "glob" in v else [b]) + list(trips))
     m.returned = [m.term(x) if isinstance(x, View) else x for x in (vals or [])]
     return m, it.steps
@@ -216,6 +228,8 @@ def eval_prog(r, prog, only=None, variant=None):
             if t0 != t1:
                 r.violate(key + f"|{trips}|final", case_j, f"final contents of argument buffer {bname}: {t1} instead of {t0} (copy back missing or misplaced); trips={trips}; program {prog!r}")
                 break
+        for pb in m1.problems[:1]:
+            r.violate(key + f"|{trips}|shape", case_j, f"{pb}; trips={trips}; program {prog!r} ({variant})")
         if m0.returned != m1.returned:
             r.violate(key + f"|{trips}|returned", case_j, f"the returned buffer holds {m1.returned} instead of {m0.returned}; trips={trips}; program {prog!r} ({variant})")
         if not cleared and any(s != "L1" for s in m1.operand_spaces):
